@@ -7,6 +7,7 @@ alone; bounds from the set of non-occluded names), written on lower-cased label 
 dnspython comparison.  The oracle's own definition is tied to the Lean statements of record by comparing it with
 `c20.spec` (Model.BTZ.flagsSpec / delegsSpec / boundsSpec) on the same histories.
 """
+from harness.core import Stalled as _Stalled
 import glob
 import itertools
 import json
@@ -442,6 +443,8 @@ def evaluate(case):
                 except exc:
                     pass
         except BaseException as e:  # pragma: no cover
+            if isinstance(e, _Stalled):
+                raise
             out.append("FOREIGN:" + type(e).__name__)
             fails.append(("C20/txn-end/foreign-exception:" + type(e).__name__, f"commit/rollback raised {e!r}"))
         txn = None
@@ -470,6 +473,8 @@ def evaluate(case):
                 it = [low(n.labels) for n in rtxn.iterate_names()]
             zk = [low(n.labels) for n in zone.keys()]
         except BaseException as e:
+            if isinstance(e, _Stalled):
+                raise
             it = zk = None
             fails.append(("C20/api/iteration-raises:" + type(e).__name__, repr(e)))
         vk = [low(n.labels) for n in v.nodes.keys()]
@@ -504,6 +509,8 @@ def evaluate(case):
         try:
             zone = load_zone(case)
         except BaseException as e:
+            if isinstance(e, _Stalled):
+                raise
             return "ok LOAD!" + type(e).__name__, "ok", [("C20/load/raises:" + type(e).__name__, f"from_text raised {e!r} on {load_text(case)!r}")], \
                 {"ops": 0, "queries": 0, "commits": 0, "tainted": 0, "errors": 0, "marks": []}
         record_commit()
@@ -560,6 +567,8 @@ def evaluate(case):
                     fails.append(("C20/bounds/raises/assertion", f"bounds({q}) asserted although a predecessor exists"))
                 continue
             except BaseException as e:
+                if isinstance(e, _Stalled):
+                    raise
                 out.append("B!F:" + type(e).__name__)
                 fails.append(("C20/bounds/foreign-exception:" + type(e).__name__, f"bounds({q}) raised {e!r}"))
                 continue
@@ -576,6 +585,8 @@ def evaluate(case):
                         if b2 != b:
                             fails.append(("C20/bounds/str-query-differs", f"bounds({q.to_text()!r}) = {b2}, bounds(Name) = {b}"))
                     except BaseException as e:
+                        if isinstance(e, _Stalled):
+                            raise
                         fails.append(("C20/bounds/str-query-raises:" + type(e).__name__, f"bounds({q.to_text()!r}) raised {e!r}"))
                 if not tainted:
                     vq = dns.name.Name(key)
@@ -588,6 +599,8 @@ def evaluate(case):
                         if gotd != wantd:
                             fails.append(("C20/index-api/get_delegation-is_glue", f"delegations.get_delegation/is_glue({enc_labels(key)}) = {gotd!r}, definition says {wantd!r}; zone {show_snap(v)}"))
                     except BaseException as e:
+                        if isinstance(e, _Stalled):
+                            raise
                         fails.append(("C20/index-api/raises:" + type(e).__name__, repr(e)))
             if key is None:
                 fails.append(("C20/bounds/accepts-out-of-zone-name", f"bounds({q}) returned {b}"))
@@ -632,6 +645,8 @@ def evaluate(case):
                     except (ValueError, TypeError, KeyError):
                         pass
                     except BaseException as e:
+                        if isinstance(e, _Stalled):
+                            raise
                         fails.append(("C20/op/hostile-call-foreign:" + type(e).__name__, f"a malformed call before {item} raised {e!r}"))
                 if show_snap(txn.version) != before:
                     fails.append(("C20/op/state-changed-by-failed-call", f"a malformed call before {item} changed the version: {before} -> {show_snap(txn.version)}"))
@@ -687,6 +702,8 @@ def evaluate(case):
             tok, kind = "!V", "error"
             stats["errors"] += 1
         except BaseException as e:
+            if isinstance(e, _Stalled):
+                raise
             tok, kind = "FOREIGN:" + type(e).__name__, "error"
             fails.append(("C20/op/foreign-exception:" + type(e).__name__, f"{item} raised {e!r}"))
         if quiet:
@@ -701,6 +718,8 @@ def evaluate(case):
         try:
             now = show_snap(hv)
         except BaseException as e:
+            if isinstance(e, _Stalled):
+                raise
             now = "raises " + repr(e)
         if now != snap0:
             fails.append(("C20/versions/committed-version-changed-later",
@@ -724,6 +743,8 @@ def evaluate(case):
                 got = (low(b.left.labels), None if b.right is None else low(b.right.labels), low(b.closest_encloser.labels),
                        bool(b.is_equal), bool(b.is_delegation))
             except BaseException as e:
+                if isinstance(e, _Stalled):
+                    raise
                 got = "raises " + type(e).__name__
             if got != (want["left"], want["right"], want["ce"], want["eq"], want["deleg"]):
                 fails.append(("C20/versions/retained-version-bounds",
@@ -874,7 +895,9 @@ def minimise(case, sig, budget=120):
         tries += 1
         try:
             _, _, fails, _ = evaluate(dict(case, items=cand))
-        except BaseException:
+        except BaseException as _be:
+            if isinstance(_be, _Stalled):
+                raise
             fails = []
         if any(s == sig for s, _ in fails):
             items = cand
